@@ -45,6 +45,18 @@ def trigger_documents(tier):
     out.append(f"{{|\n|-\n| {sc} | a\n| {sc} | b\n|}}\n")
     out.append(f"{{|\n|-\n| <div {sc}>a</div>\n| <div {sc}>b</div>\n|-\n| <div {sc}>c</div> || d\n|}}\n")
     out.append(f"{{| {sc}\n|-\n| {sc} | a\n|}}\n")
+    # a scrolling element inside a NESTED table (the outermost table is dissolved)
+    out.append(f"{{|\n|-\n|\n{{|\n|-\n| {sc} | <br/>\n|}}\n|}}\n")
+    out.append(f"{{|\n|-\n|\n{{|\n|-\n| {sc} | text<ref name=\"a\"/> more\n| second\n|}}\n| outer\n|}}\n")
+    out.append(f"{{|\n|-\n| <div {sc}>scroll</div> ||\n{{|\n|-\n| c1 || c2\n|-\n| d1 ||\n{{| border=\"1\"\n|-\n| e1 || e2\n|-\n| f1 || f2\n|}}\n|}}\n|}}\n")
+    # attribute values that are numbers written in the wikitext
+    out.append('intro\n\n{|\n|-\n| colspan="99999999999" | ' + ("word " * 600) + '\n| b\n| c\n|}\n')
+    out.append('intro\n\n{|\n|-\n| colspan="3000000" | ' + ("word " * 1100) + '\n| b\n|}\n')
+    out.append('{|\n|-\n| rowspan="99999999999" | a\n| b\n|-\n| c\n|}\n')
+    # lengths in every unit the style parser knows, and in none (scale_length)
+    for h in ("300px", "300pt", "30em", "50%", "300", "auto", "", "1e3px", "-5px"):
+        out.append(f'<div style="overflow:auto; height:{h}">scrolling text</div>\n\nafter')
+        out.append(f'{{|\n|-\n| <div style="overflow:auto; height:{h}; width:{h}">x</div> || y\n|}}\n')
     # a table inside an image caption, directly and below one more wrapper (remove_broken_children)
     for wrap in ("{}", "<center>{}</center>", "<div>{}</div>", "<center><div>{}</div></center>"):
         inner = wrap.format("\n{|\n|-\n| a || b\n|-\n| c || d\n|}\n")
